@@ -435,12 +435,9 @@ impl<'a> ReadAdapter<'a> {
             },
         }
 
-        // Check if we should reset our internal buffer
-        if self.buffer().is_empty() && self.pos > 0 {
-            unsafe {
-                self.buf.set_len(0);
-            }
-        }
+        // NOTE: a fully drained internal buffer is deliberately not truncated here: truncating it
+        // without also rewinding `pos` made every byte buffered afterwards invisible (`pos` pointed
+        // past them). Drained storage is reclaimed by the compaction step in `read_slice`.
 
         Ok(output)
     }
